@@ -158,12 +158,13 @@ impl Heap {
     pub fn maybe_put<T: Into<VCell> + Clone>(&mut self, vcell: T) -> VCell {
         let vcell = vcell.into();
         match &vcell {
-            VCell::Number(_)
-            | VCell::Bool(_)
-            | VCell::Char(_)
-            | VCell::Nil
-            | VCell::Void
-            | VCell::Undefined => vcell,
+            // a number is kept where it is used, in an environment, a vector or on the
+            // stack: a bignum holds its digits all the same
+            VCell::Number(_) => {
+                self.payload = self.payload.saturating_add(payload(&vcell));
+                vcell
+            }
+            VCell::Bool(_) | VCell::Char(_) | VCell::Nil | VCell::Void | VCell::Undefined => vcell,
             VCell::Ptr(_) => vcell,
             VCell::Symbol(sym) => match self.symbol_table.get(sym.deref()) {
                 Some(ptr) => VCell::ptr(*ptr),
